@@ -84,6 +84,9 @@ func genC14(r *simrt.RNG, tier string, variant int) Plan {
 		}
 	}
 	p.Params["close_after"] = int64(r.Intn(3)) // 0: no close, 1: close at the end, 2: close mid-workload
+	if p.Params["long_stall"] > 1 && r.Bool(0.6) {
+		p.Params["close_after"], p.Params["close_in_stall"] = 2, 1
+	}
 	return p
 }
 
@@ -106,6 +109,7 @@ func runC14(e *Env, p *Plan) {
 		}
 		return ""
 	})
+	stallStarted := make(chan struct{})
 	for _, f := range p.Faults {
 		f := f
 		switch f.Kind {
@@ -116,6 +120,7 @@ func runC14(e *Env, p *Plan) {
 				}
 				e.N.Inject(f.Pipe, "wstall", f.Dir, 0)
 				e.Probe("write-stall-injected")
+				close(stallStarted)
 				time.Sleep(dur(f.DurNs))
 				e.N.Heal()
 			})
@@ -149,6 +154,20 @@ func runC14(e *Env, p *Plan) {
 	}()
 	if p.Param("close_after", 0) == 2 {
 		e.S.Go("midclose", func() {
+			if d := p.Param("long_stall", 0); d > 1 && p.Param("close_in_stall", 0) > 0 {
+				// the close lands well inside the stall: by then some writer (a ping, a
+				// cancel, a request) sits in a blocked Write with the write lock held
+				select {
+				case <-stallStarted:
+				case <-e.Done:
+					return
+				}
+				time.Sleep(dur(d) / 3)
+				simrt.Yield("midclose-wake")
+				e.Probe("close-in-the-middle-of-a-write-stall")
+				w.Clients[0].Close(e)
+				return
+			}
 			for i := 0; i < 40; i++ {
 				simrt.Yield("midclose-delay")
 			}
